@@ -14,16 +14,76 @@ use vhost::vhost_kern::vdpa::VhostKernVdpa;
 use vhost::vhost_kern::vsock::Vsock;
 use vhost::vhost_kern::VhostKernFeatures;
 use vhost::vsock::VhostVsock;
-use vhost::{VhostBackend, VhostUserMemoryRegionInfo, VringConfigData};
+use vhost::vhost_kern::vhost_binding::{vhost_msg, vhost_msg_v2};
+use vhost::{VhostAccess, VhostBackend, VhostIotlbBackend, VhostIotlbMsg, VhostIotlbMsgParser, VhostIotlbType, VhostUserMemoryRegionInfo, VringConfigData};
 use vm_memory::{GuestAddress, GuestMemory, GuestMemoryMmap};
 use vmm_sys_util::eventfd::EventFd;
 
 fn n(v: u64) -> Val {
     Val::N(v as u128)
 }
-const GPA0: u64 = 0x10000;
-const GLEN: usize = 0x20000;
-const GPA1: u64 = 0x100000;
+/// guest memory layouts (C19 quantifies over 1..=3 regions): 0 = two regions, 1 = one, 2 = three
+fn layout(k: u64) -> Vec<(u64, usize)> {
+    match k {
+        1 => vec![(0x10000, 0x20000)],
+        2 => vec![(0x0, 0x8000), (0x10000, 0x20000), (0x100000, 0x1000)],
+        _ => vec![(0x10000, 0x20000), (0x100000, 0x1000)],
+    }
+}
+
+fn access(v: u64) -> VhostAccess {
+    match v {
+        1 => VhostAccess::ReadOnly,
+        2 => VhostAccess::WriteOnly,
+        3 => VhostAccess::ReadWrite,
+        _ => VhostAccess::No,
+    }
+}
+fn iotlb_type(v: u64) -> VhostIotlbType {
+    match v {
+        1 => VhostIotlbType::Miss,
+        2 => VhostIotlbType::Update,
+        3 => VhostIotlbType::Invalidate,
+        4 => VhostIotlbType::AccessFail,
+        5 => VhostIotlbType::BatchBegin,
+        6 => VhostIotlbType::BatchEnd,
+        _ => VhostIotlbType::Empty,
+    }
+}
+fn parsed(r: vhost::Result<()>, m: &VhostIotlbMsg) -> Val {
+    match r {
+        Ok(()) => Val::L(vec![
+            Val::s("ok"),
+            Val::L(vec![n(m.iova), n(m.size), n(m.userspace_addr), n(m.perm as u8 as u64), n(m.msg_type as u8 as u64)]),
+        ]),
+        Err(vhost::Error::InvalidIotlbMsg) => Val::s("InvalidIotlbMsg"),
+        Err(_) => Val::s("err"),
+    }
+}
+/// the bytes of a message as the kernel would hand them over, through the crate's own parser.
+/// perm and type bytes outside the enums' ranges are not fed in (the parser trusts the kernel for those).
+fn parse_bytes(v2: bool, bytes: &[u8]) -> Val {
+    let mut out = VhostIotlbMsg::default();
+    if v2 {
+        if bytes.len() != std::mem::size_of::<vhost_msg_v2>() {
+            return Val::s("size");
+        }
+        let mut m = vhost_msg_v2::default();
+        // SAFETY: plain-old-data structure of exactly this size
+        unsafe { std::ptr::copy_nonoverlapping(bytes.as_ptr(), &mut m as *mut vhost_msg_v2 as *mut u8, bytes.len()) };
+        let r = m.parse(&mut out);
+        parsed(r, &out)
+    } else {
+        if bytes.len() != std::mem::size_of::<vhost_msg>() {
+            return Val::s("size");
+        }
+        let mut m = vhost_msg::default();
+        // SAFETY: plain-old-data structure of exactly this size
+        unsafe { std::ptr::copy_nonoverlapping(bytes.as_ptr(), &mut m as *mut vhost_msg as *mut u8, bytes.len()) };
+        let r = m.parse(&mut out);
+        parsed(r, &out)
+    }
+}
 
 fn res<T>(r: vhost::Result<T>, f: impl Fn(T) -> Val) -> Val {
     match r {
@@ -98,12 +158,18 @@ pub fn run(args: &[Val]) -> Val {
     let data = args.get(3).and_then(|v| v.as_h()).unwrap_or(&[]).to_vec();
     let acked = args.get(4).and_then(|v| v.as_u64()).unwrap_or(0);
     let g = |i: usize| *a.get(i).unwrap_or(&0);
-    let mem = match GuestMemoryMmap::<()>::from_ranges(&[(GuestAddress(GPA0), GLEN), (GuestAddress(GPA1), 0x1000)]) {
+    let lay = layout(args.get(5).and_then(|v| v.as_u64()).unwrap_or(0));
+    let ranges: Vec<(GuestAddress, usize)> = lay.iter().map(|(g, l)| (GuestAddress(*g), *l)).collect();
+    let mem = match GuestMemoryMmap::<()>::from_ranges(&ranges) {
         Ok(m) => m,
         Err(_) => return Val::err("mem"),
     };
-    let hb0 = mem.get_host_address(GuestAddress(GPA0)).unwrap() as u64;
-    let hb1 = mem.get_host_address(GuestAddress(GPA1)).unwrap() as u64;
+    let hosts: Vec<(u64, u64, u64)> =
+        lay.iter().map(|(g, l)| (mem.get_host_address(GuestAddress(*g)).unwrap() as u64, *g, *l as u64)).collect();
+    if op == "parse_iotlb" {
+        // no descriptor involved: a[0] = 1 for the v2 layout
+        return Val::L(vec![Val::L(vec![]), Val::H(vec![]), parse_bytes(g(0) != 0, &data)]);
+    }
     shim::kern_begin();
     let ev = EventFd::new(0).unwrap();
     // descriptor numbers are replaced by a marker in the observation
@@ -167,6 +233,23 @@ pub fn run(args: &[Val]) -> Val {
                     "suspend" => res(b.suspend(), unit),
                     "dma_map" => res(b.dma_map(g(0), g(1), g(2) as *const u8, g(3) != 0), unit),
                     "dma_unmap" => res(b.dma_unmap(g(0), g(1)), unit),
+                    "send_iotlb" | "iotlb_roundtrip" => {
+                        let m = VhostIotlbMsg { iova: g(0), size: g(1), userspace_addr: g(2), perm: access(g(3)), msg_type: iotlb_type(g(4)) };
+                        let r = b.send_iotlb_msg(&m);
+                        if op == "iotlb_roundtrip" && r.is_ok() {
+                            // what was written, read back and handed to the parser of the same layout
+                            let mut w = vec![];
+                            if let Some(f) = dummy.as_mut() {
+                                let _ = f.seek(SeekFrom::Start(0));
+                                let _ = f.read_to_end(&mut w);
+                            }
+                            // both layouts have the same size: the outer type word says which one was written
+                            let v2 = w.len() >= 4 && u32::from_le_bytes([w[0], w[1], w[2], w[3]]) == 2;
+                            parse_bytes(v2, &w)
+                        } else {
+                            res(r, unit)
+                        }
+                    }
                     "get_backend_features" => res(b.get_backend_features(), n),
                     "set_backend_features" => {
                         let r = b.set_backend_features(g(0));
@@ -189,13 +272,11 @@ pub fn run(args: &[Val]) -> Val {
                 // host addresses back to guest addresses through the harness's own knowledge of the mapping
                 for off in [8usize, 16, 24] {
                     let p = u64::from_le_bytes(arg[off..off + 8].try_into().unwrap());
-                    let gpa = if p >= hb0 && p < hb0 + GLEN as u64 {
-                        p - hb0 + GPA0
-                    } else if p >= hb1 && p < hb1 + 0x1000 {
-                        p - hb1 + GPA1
-                    } else {
-                        0xdead_0000_0000_0000 | (p & 0xffff)
-                    };
+                    let gpa = hosts
+                        .iter()
+                        .find(|(h, _, l)| p >= *h && p < *h + *l)
+                        .map(|(h, g, _)| p - h + g)
+                        .unwrap_or(0xdead_0000_0000_0000 | (p & 0xffff));
                     arg[off..off + 8].copy_from_slice(&gpa.to_le_bytes());
                 }
             }
